@@ -683,3 +683,421 @@ Proof.
   intro d. pose proof (parse_packet_total d) as H.
   destruct (parse_packet d) as [ms | |]; [left; exists ms; reflexivity | right; reflexivity | contradiction].
 Qed.
+
+(* ---- the function that is invoked is the responder's current function ------------------------------------- *)
+Fixpoint user_tag (f : func) : nat := match f with FUser tag => tag | FOneShot g => user_tag g end.
+Definition entries (t : table) : list wrapped := flat_map snd t.
+Definition rfunc (st : dstate) (id : nat) : option func := option_map r_func (nth_error (resps st) id).
+Definition func_ok (st : dstate) (w : wrapped) : Prop := rfunc st (w_id w) = Some (w_func w).
+Definition funcs_ok (st : dstate) : Prop := forall kind w, In w (entries (tbl st kind)) -> func_ok st w.
+
+Lemma entries_append : forall t p w w', In w' (entries (tbl_append t p w)) <-> In w' (entries t) \/ w' = w.
+Proof.
+  unfold entries. induction t as [| [k l] t IH]; intros p w w'; simpl.
+  - split; [intros [H | H]; [right; auto | contradiction] | intros [[] | H]; left; auto].
+  - destruct (bytes_eqb p k); simpl; rewrite !in_app_iff.
+    + simpl. intuition (subst; auto).
+    + rewrite IH. tauto.
+Qed.
+Lemma remove_first_incl : forall id l w, In w (remove_first id l) -> In w l.
+Proof.
+  induction l as [| x l IH]; simpl; intros w H; [assumption|].
+  destruct (Nat.eqb (w_id x) id); [right; assumption | destruct H; [left; assumption | right; apply IH; assumption]].
+Qed.
+Lemma entries_remove : forall t p id w, In w (entries (tbl_remove t p id)) -> In w (entries t).
+Proof.
+  unfold entries. induction t as [| [k l] t IH]; intros p id w H; simpl in *; [assumption|].
+  rewrite in_app_iff. destruct (bytes_eqb p k).
+  - destruct (remove_first id l) as [| x l'] eqn:E; simpl in H.
+    + right. assumption.
+    + destruct H as [H | H]; [left; apply (remove_first_incl id); rewrite E; left; assumption|].
+      apply in_app_or in H as [H | H]; [left; apply (remove_first_incl id); rewrite E; right; assumption | right; assumption].
+  - simpl in H. rewrite in_app_iff in H. destruct H as [H | H]; [left; assumption | right; eapply IH; eassumption].
+Qed.
+(* after update_func_for_func_proxy: an entry is the replaced one, or an old entry of another
+   responder, or an old entry under another key *)
+Lemma entries_update : forall t p id f w, NoDup (keys t) -> In w (entries (tbl_update t p id f)) ->
+  (w_id w = id /\ w_func w = f) \/ (w_id w <> id /\ In w (entries t)) \/ (exists k l, In (k, l) t /\ k <> p /\ In w l).
+Proof.
+  unfold entries. induction t as [| [k l] t IH]; intros p id f w Hnd H; simpl in *; [contradiction|].
+  inversion Hnd as [| ? ? Hnin Hnd']; subst.
+  destruct (bytes_eqb p k) eqn:E; simpl in H; rewrite in_app_iff in H.
+  - apply bytes_eqb_eq in E. subst k. destruct H as [H | H].
+    + unfold replace_func in H. apply in_map_iff in H as (x & Hx & Hin).
+      destruct (Nat.eqb_spec (w_id x) id) as [Hid | Hid]; subst w.
+      * left. simpl. auto.
+      * right. left. split; [assumption | apply in_or_app; left; assumption].
+    + apply in_flat_map in H as ([k' l'] & Hkl & Hw). simpl in Hw.
+      right. right. exists k', l'. repeat split; [right; assumption | | assumption].
+      intro Heq. subst k'. apply Hnin. change p with (fst (p, l')). apply in_map. assumption.
+  - destruct H as [H | H].
+    + right. right. exists k, l. repeat split; [left; reflexivity | intro; subst; rewrite bytes_eqb_refl in E; discriminate | assumption].
+    + apply (IH p id f w Hnd') in H as [H | [[H1 H2] | (k' & l' & H1 & H2 & H3)]]; [left; assumption | right; left; split; [assumption | apply in_or_app; right; assumption] |].
+      right. right. exists k', l'. repeat split; [right; assumption | assumption | assumption].
+Qed.
+
+(* where the entries of a responder live *)
+Lemma entry_key : forall st kind k l w, Inv st -> In (k, l) (tbl st kind) -> In w l ->
+  has_key st kind k (w_id w) = true /\ In (w_id w) (cmdp st).
+Proof.
+  intros st kind k l w HI Hkl Hw.
+  pose proof (inv_tbl st HI kind k) as Ht. unfold ids_at in Ht.
+  rewrite (tbl_get_in (tbl st kind) k l (inv_keys st HI kind) Hkl) in Ht.
+  assert (Hin : In (w_id w) (map w_id l)) by (apply in_map; assumption).
+  rewrite Ht in Hin. apply filter_In in Hin. tauto.
+Qed.
+Lemma entry_in : forall t w, In w (entries t) -> exists k l, In (k, l) t /\ In w l.
+Proof. unfold entries. intros t w H. apply in_flat_map in H as ([k l] & H1 & H2). exists k, l. auto. Qed.
+
+Lemma rfunc_set : forall st st' id r r' j, nth_error (resps st) id = Some r -> resps st' = set_resp st id r' ->
+  r_func r' = r_func r -> rfunc st' j = rfunc st j.
+Proof.
+  intros st st' id r r' j Hn Hr Hf. unfold rfunc. rewrite Hr.
+  assert (Hl : (id < length (resps st))%nat) by (apply nth_error_Some; congruence).
+  destruct (Nat.eq_dec j id) as [-> | Hne].
+  - rewrite (nth_set_resp_same st id r r' Hn), Hn. simpl. congruence.
+  - rewrite nth_set_resp_other by assumption. reflexivity.
+Qed.
+
+Lemma funcs_ok_enable : forall st id, Inv st -> funcs_ok st -> funcs_ok (enable st id).
+Proof.
+  intros st id HI HF. unfold enable.
+  destruct (nth_error (resps st) id) as [r|] eqn:Hn; [|assumption].
+  destruct (r_enabled r) eqn:He; [assumption|].
+  intros kind w Hw. unfold func_ok.
+  match goal with |- rfunc ?s _ = _ => set (st' := s) in * end.
+  assert (Hrf : forall j, rfunc st' j = rfunc st j) by (intro j; apply (rfunc_set st st' id r (with_enabled r true)); auto).
+  rewrite Hrf.
+  assert (Hnew : rfunc st id = Some (r_func r)) by (unfold rfunc; rewrite Hn; reflexivity).
+  unfold tbl in Hw. simpl in Hw.
+  destruct kind, (r_matching r); simpl in Hw.
+  - apply entries_append in Hw as [Hw | ->]; [apply (HF true w Hw) | exact Hnew].
+  - apply (HF true w Hw).
+  - apply (HF false w Hw).
+  - apply entries_append in Hw as [Hw | ->]; [apply (HF false w Hw) | exact Hnew].
+Qed.
+
+Lemma funcs_ok_disable : forall st id, Inv st -> funcs_ok st -> funcs_ok (disable st id).
+Proof.
+  intros st id HI HF. unfold disable.
+  destruct (nth_error (resps st) id) as [r|] eqn:Hn; [|assumption].
+  destruct (r_enabled r) eqn:He; [|assumption].
+  intros kind w Hw. unfold func_ok.
+  match goal with |- rfunc ?s _ = _ => set (st' := s) in * end.
+  assert (Hrf : forall j, rfunc st' j = rfunc st j) by (intro j; apply (rfunc_set st st' id r (with_enabled r false)); auto).
+  rewrite Hrf. unfold tbl in Hw. simpl in Hw.
+  destruct kind, (r_matching r); simpl in Hw.
+  - apply entries_remove in Hw. apply (HF true w Hw).
+  - apply (HF true w Hw).
+  - apply (HF false w Hw).
+  - apply entries_remove in Hw. apply (HF false w Hw).
+Qed.
+
+Lemma funcs_ok_set_func : forall st id f, Inv st -> funcs_ok st -> funcs_ok (set_func st id f).
+Proof.
+  intros st id f HI HF. unfold set_func.
+  destruct (nth_error (resps st) id) as [r|] eqn:Hn; [|assumption].
+  assert (Hl : (id < length (resps st))%nat) by (apply nth_error_Some; congruence).
+  intros kind w Hw. unfold func_ok.
+  match goal with |- rfunc ?s _ = _ => set (st' := s) in * end.
+  assert (Hsame : rfunc st' id = Some f).
+  { unfold rfunc, st'. simpl. rewrite (nth_set_resp_same st id r _ Hn). reflexivity. }
+  assert (Hother : forall j, j <> id -> rfunc st' j = rfunc st j).
+  { intros j Hne. unfold rfunc, st'. simpl. rewrite nth_set_resp_other by assumption. reflexivity. }
+  (* an old entry of responder id sits in the table of its kind under its path, and only if enabled *)
+  assert (Hloc : forall kind' k l w', In (k, l) (tbl st kind') -> In w' l -> w_id w' = id ->
+                 r_enabled r = true /\ kind' = r_matching r /\ k = r_path r).
+  { intros kind' k l w' Hkl Hw' Hid. destruct (entry_key st kind' k l w' HI Hkl Hw') as [Hk Hc].
+    rewrite Hid in *. apply (inv_enabled st HI) in Hc. unfold enabled in Hc. rewrite Hn in Hc.
+    unfold has_key in Hk. rewrite Hn in Hk. apply andb_true_iff in Hk as [Hk1 Hk2].
+    apply bytes_eqb_eq in Hk2. apply eqb_prop in Hk1. auto. }
+  assert (Hold : forall kind' w', In w' (entries (tbl st kind')) -> w_id w' <> id -> rfunc st' (w_id w') = Some (w_func w')).
+  { intros kind' w' Hin Hne. rewrite Hother by assumption. apply (HF kind' w' Hin). }
+  assert (Hnone : forall kind' w', In w' (entries (tbl st kind')) -> w_id w' = id ->
+                  r_enabled r = true /\ kind' = r_matching r).
+  { intros kind' w' Hin Hid. apply entry_in in Hin as (k & l & Hkl & Hw'). destruct (Hloc kind' k l w' Hkl Hw' Hid) as (H1 & H2 & _). auto. }
+  unfold tbl in Hw. simpl in Hw.
+  assert (Hupd : forall kind', In w (entries (tbl_update (tbl st kind') (r_path r) id f)) -> rfunc st' (w_id w) = Some (w_func w)).
+  { intros kind' Hin. apply entries_update in Hin; [|apply (inv_keys st HI kind')].
+    destruct Hin as [[H1 H2] | [[H1 H2] | (k & l & H1 & H2 & H3)]].
+    - rewrite H1, H2. exact Hsame.
+    - apply (Hold kind' w H2 H1).
+    - destruct (Nat.eq_dec (w_id w) id) as [Hid | Hne].
+      + destruct (Hloc kind' k l w H1 H3 Hid) as (_ & _ & Hk). contradiction.
+      + apply (Hold kind' w); [apply in_flat_map; exists (k, l); auto | assumption]. }
+  assert (Hkeep : forall kind', In w (entries (tbl st kind')) -> (r_enabled r && Bool.eqb kind' (r_matching r)) = false ->
+                  rfunc st' (w_id w) = Some (w_func w)).
+  { intros kind' Hin Hc. destruct (Nat.eq_dec (w_id w) id) as [Hid | Hne]; [|apply (Hold kind' w Hin Hne)].
+    destruct (Hnone kind' w Hin Hid) as [H1 H2]. subst kind'. rewrite H1, eqb_reflx in Hc. discriminate. }
+  destruct kind.
+  - destruct (r_enabled r && r_matching r) eqn:Ec.
+    + apply (Hupd true). exact Hw.
+    + apply (Hkeep true); [exact Hw|]. destruct (r_enabled r), (r_matching r); simpl in *; congruence.
+  - destruct (r_enabled r && negb (r_matching r)) eqn:Ec.
+    + apply (Hupd false). exact Hw.
+    + apply (Hkeep false); [exact Hw|]. destruct (r_enabled r), (r_matching r); simpl in *; congruence.
+Qed.
+
+Definition Inv2 (st : dstate) : Prop := Inv st /\ funcs_ok st.
+
+Lemma Inv2_init : Inv2 init_state.
+Proof. split; [apply Inv_init | intros [] w H; simpl in H; contradiction]. Qed.
+Lemma Inv2_enable : forall st id, Inv2 st -> Inv2 (enable st id).
+Proof. intros st id [H1 H2]. split; [apply Inv_enable | apply funcs_ok_enable]; assumption. Qed.
+Lemma Inv2_disable : forall st id, Inv2 st -> Inv2 (disable st id).
+Proof. intros st id [H1 H2]. split; [apply Inv_disable | apply funcs_ok_disable]; assumption. Qed.
+Lemma Inv2_set_func : forall st id f, Inv2 st -> Inv2 (set_func st id f).
+Proof. intros st id f [H1 H2]. split; [apply Inv_set_func | apply funcs_ok_set_func]; assumption. Qed.
+
+Lemma Inv2_create : forall st p mt s po tm tag, Inv2 st -> Inv2 (create st p mt s po tm tag).
+Proof.
+  intros st p mt s po tm tag [HI HF]. unfold create.
+  match goal with |- Inv2 (enable ?s0 ?i0) => set (st0 := s0) end.
+  assert (HI0 : Inv st0).
+  { pose proof (Inv_create st p mt s po tm tag HI) as H. unfold create in H. fold st0 in H.
+    (* Inv st0 was an intermediate step of Inv_create; re-derive it *)
+    clear H. unfold st0.
+    match goal with |- Inv {| resps := resps st ++ [?r0]; act_exact := _; act_match := _; cmdp := _ |} => set (r := r0) end.
+    assert (Hsame : forall j, (j < length (resps st))%nat -> nth_error (resps st ++ [r]) j = nth_error (resps st) j)
+      by (intros j Hj; apply nth_error_app1; assumption).
+    constructor; simpl.
+    - apply (inv_nodup st HI).
+    - intro j. rewrite (inv_enabled st HI). unfold enabled. simpl.
+      destruct (Nat.lt_ge_cases j (length (resps st))) as [Hlt | Hge].
+      + rewrite Hsame by assumption. tauto.
+      + assert (E1 : nth_error (resps st) j = None) by (apply nth_error_None; assumption). rewrite E1.
+        rewrite nth_error_app2 by assumption. destruct (j - length (resps st))%nat as [| k]; simpl; [tauto | destruct k; simpl; tauto].
+    - intro kind. apply (inv_keys st HI kind).
+    - intros kind key. pose proof (inv_tbl st HI kind key) as Ht. unfold tbl in *. simpl. rewrite Ht.
+      apply filter_ext_in_l. intros j Hj. unfold has_key. simpl. rewrite Hsame; [reflexivity | apply cmdp_lt; assumption]. }
+  apply Inv2_enable. split; [exact HI0|].
+  intros kind w Hw. unfold func_ok, rfunc, st0. simpl.
+  assert (Hw' : In w (entries (tbl st kind))) by (unfold tbl in *; simpl in Hw; exact Hw).
+  pose proof (HF kind w Hw') as Hok. unfold func_ok, rfunc in Hok.
+  apply entry_in in Hw' as (k & l & Hkl & Hwl). destruct (entry_key st kind k l w HI Hkl Hwl) as [_ Hc].
+  rewrite nth_error_app1 by (apply cmdp_lt; assumption). exact Hok.
+Qed.
+
+Lemma Inv2_cmd_period : forall st, Inv2 st -> Inv2 (cmd_period st).
+Proof.
+  intros st HI. unfold cmd_period. generalize (cmdp st) as l. intro l. revert st HI.
+  induction l as [| id l IH]; intros st HI; simpl; [assumption|].
+  apply IH. destruct (existsb (Nat.eqb id) (cmdp st)); [apply Inv2_disable|]; assumption.
+Qed.
+Lemma Inv2_run_func : forall f st id, Inv2 st -> Inv2 (fst (run_func st id f)).
+Proof. induction f as [tag | g IH]; intros st id HI; simpl; [assumption | apply IH, Inv2_disable; assumption]. Qed.
+Lemma Inv2_call_wrapped : forall st w m t src port, Inv2 st -> Inv2 (fst (call_wrapped st w m t src port)).
+Proof.
+  intros st w m t src port HI.
+  destruct (call_wrapped_spec st w m t src port) as [[_ Hc] | [_ Hc]]; rewrite Hc; simpl; [apply Inv2_run_func|]; assumption.
+Qed.
+Lemma Inv2_call_all : forall l st m t src port, Inv2 st -> Inv2 (fst (call_all st l m t src port)).
+Proof.
+  induction l as [| w l IH]; intros st m t src port HI; simpl; [assumption|].
+  pose proof (Inv2_call_wrapped st w m t src port HI) as H1.
+  destruct (call_wrapped st w m t src port) as [st1 o1]. simpl in H1.
+  pose proof (IH st1 m t src port H1) as H2.
+  destruct (call_all st1 l m t src port) as [st2 o2]. simpl in *. assumption.
+Qed.
+Lemma Inv2_dispatch_keys : forall ks st m t src port, Inv2 st -> Inv2 (fst (dispatch_keys st ks m t src port)).
+Proof.
+  induction ks as [| [k l] ks IH]; intros st m t src port HI; simpl; [assumption|].
+  destruct (osc_rematch (m_addr m) k); try assumption.
+  - pose proof (Inv2_call_all l st m t src port HI) as H1.
+    destruct (call_all st l m t src port) as [st1 o1]. simpl in H1.
+    pose proof (IH st1 m t src port H1) as H2.
+    destruct (dispatch_keys st1 ks m t src port) as [st2 o2]. simpl in *. assumption.
+  - apply IH. assumption.
+Qed.
+Lemma Inv2_exact_d : forall st m t src port, Inv2 st -> Inv2 (fst (dispatch_exact_d st m t src port)).
+Proof.
+  intros. unfold dispatch_exact_d. destruct (tbl_get (act_exact st) (m_addr m)); [apply Inv2_call_all|]; assumption.
+Qed.
+Lemma Inv2_incoming : forall st m t src port, Inv2 st -> Inv2 (fst (incoming st m t src port)).
+Proof.
+  intros st m t src port HI. unfold incoming.
+  pose proof (Inv2_exact_d st m t src port HI) as H1.
+  destruct (dispatch_exact_d st m t src port) as [st1 o1]. simpl in H1.
+  pose proof (Inv2_dispatch_keys (act_match st1) st1 m t src port H1) as H2. unfold dispatch_match_d.
+  destruct (dispatch_keys st1 (act_match st1) m t src port) as [st2 o2]. simpl in *. assumption.
+Qed.
+Lemma Inv2_incoming_all : forall ms st src port, Inv2 st -> Inv2 (fst (incoming_all st ms src port)).
+Proof.
+  induction ms as [| [t m] ms IH]; intros st src port HI; simpl; [assumption|].
+  pose proof (Inv2_incoming st m t src port HI) as H1.
+  destruct (incoming st m t src port) as [st1 o1]. simpl in H1.
+  pose proof (IH st1 src port H1) as H2.
+  destruct (incoming_all st1 ms src port) as [st2 o2]. simpl in *. assumption.
+Qed.
+Lemma Inv2_step : forall st o, Inv2 st -> Inv2 (fst (step st o)).
+Proof.
+  intros st o HI. destruct o; simpl.
+  - apply Inv2_create; assumption.
+  - apply Inv2_enable; assumption.
+  - apply Inv2_disable; assumption.
+  - unfold one_shot. destruct (nth_error (resps st) id); [apply Inv2_set_func|]; assumption.
+  - apply Inv2_disable; assumption.
+  - apply Inv2_set_func; assumption.
+  - apply Inv2_cmd_period; assumption.
+  - apply Inv2_incoming; assumption.
+  - unfold handle_request. destruct (parse_packet d); try assumption. apply Inv2_incoming_all; assumption.
+Qed.
+Lemma Inv2_final : forall h, Inv2 (final h).
+Proof.
+  intro h. unfold final. generalize Inv2_init. generalize init_state. induction h as [| o h IH]; intros st HI; simpl; [assumption|].
+  pose proof (Inv2_step st o HI) as H1. destruct (step st o) as [st1 out]. simpl in H1.
+  pose proof (IH st1 H1) as H2. destruct (run st1 h) as [st2 outs]. simpl in *. assumption.
+Qed.
+
+(* the tag logged by an invocation is the user function under the one-shot wrappers *)
+Lemma run_func_tag : forall f st id, snd (run_func st id f) = user_tag f.
+Proof. induction f as [tag | g IH]; intros; simpl; [reflexivity | apply IH]. Qed.
+
+Lemma rfunc_disable : forall st j id, rfunc (disable st j) id = rfunc st id.
+Proof.
+  intros st j id. unfold disable.
+  destruct (nth_error (resps st) j) as [r|] eqn:Hn; [|reflexivity].
+  destruct (r_enabled r); [|reflexivity].
+  apply (rfunc_set st _ j r (with_enabled r false)); auto.
+Qed.
+Lemma rfunc_run_func : forall f st j id, rfunc (fst (run_func st j f)) id = rfunc st id.
+Proof. induction f as [tag | g IH]; intros; simpl; [reflexivity | rewrite IH; apply rfunc_disable]. Qed.
+
+Lemma call_all_tags : forall l st m t src port,
+  (forall i, In i (snd (call_all st l m t src port)) -> exists w, In w l /\ i_id i = w_id w /\ i_tag i = user_tag (w_func w))
+  /\ (forall id, rfunc (fst (call_all st l m t src port)) id = rfunc st id).
+Proof.
+  induction l as [| w l IH]; intros st m t src port; simpl; [split; [contradiction | reflexivity]|].
+  destruct (call_wrapped_spec st w m t src port) as [[Ha Hc] | [Ha Hc]]; rewrite Hc.
+  - set (st1 := fst (run_func st (w_id w) (w_func w))).
+    destruct (IH st1 m t src port) as [H1 H2].
+    destruct (call_all st1 l m t src port) as [st2 o2]. simpl in *. split.
+    + intros i [<- | Hi].
+      * exists w. simpl. repeat split; [left; reflexivity | apply run_func_tag].
+      * destruct (H1 i Hi) as (w' & Hw' & Hid & Htag). exists w'. repeat split; [right; assumption | assumption | assumption].
+    + intro id. rewrite H2. apply rfunc_run_func.
+  - destruct (IH st m t src port) as [H1 H2].
+    destruct (call_all st l m t src port) as [st2 o2]. simpl in *. split; [|assumption].
+    intros i Hi. destruct (H1 i Hi) as (w' & Hw' & Hid & Htag). exists w'. repeat split; [right; assumption | assumption | assumption].
+Qed.
+
+Lemma dispatch_keys_tags : forall ks st m t src port,
+  (forall i, In i (snd (dispatch_keys st ks m t src port)) ->
+     exists k l w, In (k, l) ks /\ In w l /\ i_id i = w_id w /\ i_tag i = user_tag (w_func w)).
+Proof.
+  induction ks as [| [k l] ks IH]; intros st m t src port; simpl; [contradiction|].
+  destruct (osc_rematch (m_addr m) k); simpl; try contradiction.
+  - destruct (call_all_tags l st m t src port) as [H1 _].
+    destruct (call_all st l m t src port) as [st1 o1]. simpl in *.
+    pose proof (IH st1 m t src port) as H2.
+    destruct (dispatch_keys st1 ks m t src port) as [st2 o2]. simpl in *.
+    intros i Hi. apply in_app_or in Hi as [Hi | Hi].
+    + destruct (H1 i Hi) as (w & Hw & Hid & Htag). exists k, l, w. repeat split; [left; reflexivity | assumption | assumption | assumption].
+    + destruct (H2 i Hi) as (k' & l' & w & Hkl & Hw & Hid & Htag). exists k', l', w. repeat split; [right; assumption | assumption | assumption | assumption].
+  - intros i Hi. destruct (IH st m t src port i Hi) as (k' & l' & w & Hkl & Hw & Hid & Htag).
+    exists k', l', w. repeat split; [right; assumption | assumption | assumption | assumption].
+Qed.
+
+Lemma tbl_get_entries : forall t k l, tbl_get t k = Some l -> forall w, In w l -> In w (entries t).
+Proof.
+  unfold entries. induction t as [| [k' l'] t IH]; intros k l H w Hw; simpl in *; [discriminate|].
+  apply in_or_app. destruct (bytes_eqb k k'); [inversion H; subst; left; assumption | right; eapply IH; eassumption].
+Qed.
+
+Lemma invoked_current : forall st m t src port, Inv2 st ->
+  forall i, In i (snd (incoming st m t src port)) ->
+  exists r, nth_error (resps st) (i_id i) = Some r /\ i_tag i = user_tag (r_func r).
+Proof.
+  intros st m t src port HI2 i Hi. unfold incoming in Hi.
+  pose proof (Inv2_exact_d st m t src port HI2) as [HI1 HF1].
+  assert (Hex : forall i, In i (snd (dispatch_exact_d st m t src port)) -> exists w, In w (entries (act_exact st)) /\ i_id i = w_id w /\ i_tag i = user_tag (w_func w)).
+  { unfold dispatch_exact_d. destruct (tbl_get (act_exact st) (m_addr m)) as [l|] eqn:E; [|simpl; contradiction].
+    intros i0 Hi0. destruct (proj1 (call_all_tags l st m t src port) i0 Hi0) as (w & Hw & Hid & Htag).
+    exists w. repeat split; [eapply tbl_get_entries; eassumption | assumption | assumption]. }
+  assert (Hrf : forall id, rfunc (fst (dispatch_exact_d st m t src port)) id = rfunc st id).
+  { unfold dispatch_exact_d. destruct (tbl_get (act_exact st) (m_addr m)) as [l|]; [apply call_all_tags | reflexivity]. }
+  destruct (dispatch_exact_d st m t src port) as [st1 o1]. simpl in *.
+  pose proof (dispatch_keys_tags (act_match st1) st1 m t src port) as Hm. unfold dispatch_match_d in Hi.
+  destruct (dispatch_keys st1 (act_match st1) m t src port) as [st2 o2]. simpl in *.
+  assert (Hfin : forall w (st' : dstate), rfunc st' (w_id w) = Some (w_func w) -> (forall id, rfunc st' id = rfunc st id) ->
+                 i_id i = w_id w -> i_tag i = user_tag (w_func w) ->
+                 exists r, nth_error (resps st) (i_id i) = Some r /\ i_tag i = user_tag (r_func r)).
+  { intros w st' Hok Hsame Hid Htag. rewrite Hsame in Hok. unfold rfunc in Hok. rewrite Hid.
+    destruct (nth_error (resps st) (w_id w)) as [r|]; [|discriminate]. simpl in Hok. inversion Hok as [Hf].
+    exists r. split; [reflexivity | rewrite Htag, Hf; reflexivity]. }
+  apply in_app_or in Hi as [Hi | Hi].
+  - destruct (Hex i Hi) as (w & Hw & Hid & Htag). destruct HI2 as [_ HF].
+    apply (Hfin w st); [apply (HF false w Hw) | reflexivity | assumption | assumption].
+  - destruct (Hm i Hi) as (k & l & w & Hkl & Hw & Hid & Htag).
+    apply (Hfin w st1); [apply (HF1 true w); apply in_flat_map; exists (k, l); auto | assumption | assumption | assumption].
+Qed.
+
+(* ---- matching dispatcher: exactly the right responders, each once --------------------------------------------- *)
+Definition fires_m (st : dstate) (m : omsg) (src : Z * Z) (port : Z) (id : nat) : bool :=
+  match nth_error (resps st) id with
+  | Some r => r_enabled r && r_matching r && matches m (r_path r) && accepts r m src port
+  | None => false
+  end.
+
+Lemma NoDup_app_disj : forall (A : Type) (l1 l2 : list A), NoDup l1 -> NoDup l2 -> (forall x, In x l1 -> ~ In x l2) -> NoDup (l1 ++ l2).
+Proof.
+  induction l1 as [| x l1 IH]; intros l2 H1 H2 Hd; simpl; [assumption|].
+  inversion H1; subst. constructor.
+  - intro Hi. apply in_app_or in Hi as [Hi | Hi]; [contradiction | apply (Hd x (or_introl eq_refl) Hi)].
+  - apply IH; [assumption | assumption | intros y Hy; apply Hd; right; assumption].
+Qed.
+Lemma NoDup_flat_map_disj : forall (K : Type) (f : K -> list nat) ks, NoDup ks ->
+  (forall k, In k ks -> NoDup (f k)) ->
+  (forall k1 k2 x, In k1 ks -> In k2 ks -> In x (f k1) -> In x (f k2) -> k1 = k2) ->
+  NoDup (flat_map f ks).
+Proof.
+  induction ks as [| k ks IH]; intros Hnd Hf Hd; simpl; [constructor|].
+  inversion Hnd as [| ? ? Hnin Hnd']; subst. apply NoDup_app_disj.
+  - apply Hf. left. reflexivity.
+  - apply IH; [assumption | intros; apply Hf; right; assumption | intros k1 k2 x H1 H2; apply Hd; right; assumption].
+  - intros x Hx Hi. apply in_flat_map in Hi as (k' & Hk' & Hx').
+    assert (k = k') by (apply (Hd k k' x); [left; reflexivity | right; assumption | assumption | assumption]).
+    subst. contradiction.
+Qed.
+
+Lemma fires_path : forall st kind k m src port id, fires st kind k m src port id = true ->
+  exists r, nth_error (resps st) id = Some r /\ k = r_path r.
+Proof.
+  intros st kind k m src port id H. unfold fires in H. destruct (nth_error (resps st) id) as [r|]; [|discriminate].
+  exists r. split; [reflexivity|]. apply andb_true_iff in H as [H _]. apply andb_true_iff in H as [_ H]. apply bytes_eqb_eq. assumption.
+Qed.
+
+Lemma match_exactly_once : forall st m t src port, Inv st ->
+  NoDup (map i_id (snd (dispatch_match_d st m t src port)))
+  /\ forall id, In id (map i_id (snd (dispatch_match_d st m t src port))) <-> fires_m st m src port id = true.
+Proof.
+  intros st m t src port HI. rewrite match_ids by assumption. split.
+  - apply NoDup_flat_map_disj.
+    + apply (inv_keys st HI true).
+    + intros k _. destruct (matches m k); [apply NoDup_filter, (inv_nodup st HI) | constructor].
+    + intros k1 k2 x _ _ H1 H2.
+      destruct (matches m k1); [|contradiction]. destruct (matches m k2); [|contradiction].
+      apply filter_In in H1 as [_ H1]. apply filter_In in H2 as [_ H2].
+      apply fires_path in H1 as (r1 & E1 & P1). apply fires_path in H2 as (r2 & E2 & P2). congruence.
+  - intro id. rewrite in_flat_map. split.
+    + intros (k & Hk & Hin). destruct (matches m k) eqn:Em; [|contradiction].
+      apply filter_In in Hin as [_ Hf]. destruct (fires_path _ _ _ _ _ _ _ Hf) as (r & Er & Pk).
+      unfold fires in Hf. unfold fires_m. rewrite Er in *. subst k. rewrite Em.
+      apply andb_true_iff in Hf as [Hf Ha]. apply andb_true_iff in Hf as [Hf _]. apply andb_true_iff in Hf as [He Hm].
+      apply eqb_prop in Hm. rewrite He, Hm, Ha. reflexivity.
+    + intro Hf. unfold fires_m in Hf. destruct (nth_error (resps st) id) as [r|] eqn:Er; [|discriminate].
+      apply andb_true_iff in Hf as [Hf Ha]. apply andb_true_iff in Hf as [Hf Hmt]. apply andb_true_iff in Hf as [He Hm].
+      assert (Hc : In id (cmdp st)) by (apply (inv_enabled st HI); unfold enabled; rewrite Er; assumption).
+      assert (Hfire : fires st true (r_path r) m src port id = true).
+      { unfold fires. rewrite Er, He, Hm, Ha, bytes_eqb_refl. reflexivity. }
+      exists (r_path r). split.
+      * (* the path is a key of the table because the responder is registered under it *)
+        pose proof (inv_tbl st HI true (r_path r)) as Ht. unfold ids_at, tbl in Ht.
+        destruct (tbl_get (act_match st) (r_path r)) as [l|] eqn:Eg.
+        -- clear - Eg. induction (act_match st) as [| [k' l'] t IHt]; simpl in *; [discriminate|].
+           destruct (bytes_eqb (r_path r) k') eqn:E; [left; symmetry; apply bytes_eqb_eq; assumption | right; apply IHt; assumption].
+        -- exfalso. assert (Hin : In id (filter (has_key st true (r_path r)) (cmdp st))).
+           { apply filter_In. split; [assumption|]. unfold has_key. rewrite Er, Hm, bytes_eqb_refl. reflexivity. }
+           rewrite <- Ht in Hin. contradiction.
+      * rewrite Hmt. apply filter_In. split; assumption.
+Qed.
